@@ -186,7 +186,7 @@ func canonDoc(op, doc, out string, o *proto.Out) string {
 			o.Count("in-dup-keys")
 		}
 	}
-	ov, err := parseJSON(out)
+	ov, err := parseJSONStrict(out)
 	if err != nil {
 		o.Count("out-garbage")
 		return "garbage " + proto.Enc(out)
